@@ -15,6 +15,7 @@ import (
 	"os"
 	"os/exec"
 	"path/filepath"
+	"regexp"
 	"sort"
 	"strings"
 )
@@ -238,6 +239,12 @@ func judgeVariant(v *variantSpec, r variantResult, baseBad map[string]bool) stri
 				return "ok: rule fired on the seeded construct: " + k
 			}
 		}
+		// ordinals (#n) shift when the tree under the variant has changed: compare without them
+		for _, k := range newKeys {
+			if strings.Contains(stripOrdinals(k), stripOrdinals(v.Expect)) {
+				return "ok: rule fired on the seeded construct (ordinal differs): " + k
+			}
+		}
 		if len(baseBad) > 0 && len(newKeys) == 0 {
 			// the base tree already violates at that construct (tree was mutated): not decidable here
 			for k := range baseBad {
@@ -253,3 +260,7 @@ func judgeVariant(v *variantSpec, r variantResult, baseBad map[string]bool) stri
 	}
 	return "ok: rule silent on the behaviour-preserving variant"
 }
+
+var ordinalRe = regexp.MustCompile(`#\d+`)
+
+func stripOrdinals(s string) string { return ordinalRe.ReplaceAllString(s, "") }
